@@ -15,7 +15,10 @@ BOUNDED = ["bounded repetitions e{n}, e{n,}, e{,n}, e{m,n}: the delegation to th
 
 
 def specs(tier):
-    return [ops.SequenceSpec(), ops.RepeatSpec(), ops.RepeatOnceSpec(), *ops.bounded_repeat_specs(), *g.rules(), *g.trivia()]
+    from . import templates as t
+
+    tpl = [*[x for x in t.combinator_templates(3 if tier == "quick" else 5) if "Sequence" in x.label], *t.loop_templates(), *t.rule_templates(), *t.trivia_templates()]
+    return [ops.SequenceSpec(), ops.RepeatSpec(), ops.RepeatOnceSpec(), *ops.bounded_repeat_specs(), *g.rules(), *g.trivia(), *tpl]
 
 from .groups import concretise_ops
 concretise = concretise_ops(PROPERTY)
